@@ -551,8 +551,9 @@ func recordC01(env *Env) {
 		}
 	}
 	// the 128 MiB buffer of ReadGenbank / ReadEMBL (thorough tier only: one file per format)
-	if env.optInt("flat128", 0) == 1 {
-		for _, format := range []string{"genbank", "embl"} {
+	if env.optInt("flat128", 0) >= 1 { // 2 = quick tier: the library read only
+		flats := []string{"genbank", "embl"}
+		for _, format := range flats {
 			shapes := sh[format]
 			s := shapes[1+env.rng.Intn(len(shapes)-1)]
 			plans = append(plans, plan{fmt: format, target: s.k, offset: env.rng.Intn(len(s.text)), at: 128*c01MiB - 1,
@@ -616,8 +617,11 @@ func recordC01(env *Env) {
 		flat := p.fmt == "genbank" || p.fmt == "embl"
 		if p.huge {
 			f.cls = p.fmt + "/128MiB"
-			emit(sh.evChunks(f, 128*c01MiB, "whole"))
 			emit(sh.evRead(f, "file", 4))
+			if env.optInt("flat128", 0) == 2 {
+				return
+			}
+			emit(sh.evChunks(f, 128*c01MiB, "whole"))
 			if bindir != "" {
 				emit(sh.evCmd(f, bindir, "file", 4))
 			}
